@@ -88,12 +88,13 @@ class VTuple(V):
 
 class VList(V):
     """A Python list.  Either concrete spine (`items` list of V) or symbolic (`t` z3 Seq of `elem` kind)."""
-    __slots__ = ("items", "t", "elem")
+    __slots__ = ("items", "t", "elem", "elem_cls")
 
-    def __init__(self, items=None, t=None, elem=None):
+    def __init__(self, items=None, t=None, elem=None, elem_cls=None):
         self.items = items
         self.t = t
         self.elem = elem      # 'obj' | 'str' | 'bytes' | 'int' (symbolic lists)
+        self.elem_cls = elem_cls   # declared class of the elements of an 'obj' list
 
     def __repr__(self):
         return f"VList({self.items if self.items is not None else self.t})"
